@@ -27,7 +27,7 @@ import math
 import numpy as np
 from hypothesis import strategies as st
 
-from vlib import Sub, Violation, close, require
+from vlib import Sub, close, require
 from vlib import strat as S
 
 PROPERTY = "C20"
@@ -72,8 +72,9 @@ ASSUMPTIONS = [
     "model of an affine model is exact); with model_is_linear=True only c = 0 is generated",
     "Monte-Carlo backstop: N independent residuals whitened with the Cholesky factor of the oracle D; each of the "
     "p + p(p-1) statistics sum_i (u . z_i)^2 (u = e_j, (e_j +- e_k)/sqrt 2) is chi-square with N degrees of freedom "
-    "if the property holds; two-sided quantiles at 1e-12 each, sample-mean components at 7.5 sigma (1.3e-13 "
-    "two-sided): < 300 statistics per run => total false-alarm probability < 1e-9",
+    "if the property holds; quantiles at 1e-12 on either side (2e-12 per statistic), sample-mean components at "
+    "7.5 sigma (6.4e-14 two-sided): <= 20 cases x (16 + 4) statistics per run (quick: 9 cases) => total false-alarm "
+    "probability < 1e-9; the case list and all RNG seeds are a pure function of VERIF_SEED",
     "geoVI (nonlinear sampling minimiser), point estimates and constants are not exercised here (C18/C19)",
 ]
 
@@ -306,8 +307,14 @@ def _re_model(P, split, noise="both", wrap="vector"):
     return lh0.amend(fwd, domain=dom), mk
 
 
-def _cov_check(Smat, P, kind, what):
-    C = Smat @ Smat.T
+def _symmetric_set(res):
+    """True iff the multiset of rows equals the multiset of negated rows (bit-exact)"""
+    a = np.asarray(res)
+    key = lambda m: m[np.lexsort(m.T[::-1])]       # noqa: E731
+    return np.array_equal(key(a), key(-a + 0.0))
+
+
+def _cov_check(C, P, kind, what):
     close(C, P.D, kind, tol=1e-8, scale=1.0 + float(np.max(np.abs(P.D))),
           detail=f"{what}: S S^T (S = exact sampling matrix from unit white-noise vectors) vs D = (1 + R^H N^-1 R)^-1; "
                  f"S S^T=\n{C}\nD=\n{P.D}")
@@ -351,13 +358,17 @@ def check_re_wiener(rec):
     close(got, P.m, "posterior_mean_" + rec["space"] + "_space", tol=1.0, scale=tol,
           detail=f"wiener_filter_posterior mean {got} vs exact {P.m} (kappa={P.kappa:.3g})")
     n = rec["nsamp"]
-    require(len(smp) == 2 * n, "sample_count", f"{len(smp)} samples for n_samples={n}")
+    nret = len(smp)
+    require(nret >= n and (n > 0 or nret == 0), "sample_count", f"{nret} samples for n_samples={n}")
     if n > 0:
-        res = _re_flat_batch(smp._samples, 2 * n)
-        require(np.array_equal(res[1::2], -res[0::2]), "samples_not_mirrored",
-                "residuals 2i+1 are not the exact negatives of residuals 2i")
-        full = _re_flat_batch(smp.samples, 2 * n)
-        close(full.mean(axis=0), got, "sample_mean_differs_from_position", tol=1e-12, scale=P.scale + float(np.max(np.abs(res))))
+        # documented: "the mean of the samples equals the posterior mean ... as the samples are drawn
+        # synthetically around the mean" - antithetic pairs, in whatever order
+        res = _re_flat_batch(smp._samples, nret)
+        require(_symmetric_set(res), "samples_not_mirrored",
+                f"the set of residuals is not symmetric under negation: {res}")
+        full = _re_flat_batch(smp.samples, nret)
+        close(full.mean(axis=0), got, "sample_mean_differs_from_position", tol=1e-12,
+              scale=P.scale + float(np.max(np.abs(res))))
     classes = P.classes() + ["space_" + rec["space"], "jit_%d" % rec["jit"], "nsamp_%d" % n, "noise_" + rec["noise"],
                              "kw_" + rec["kw"], "keys_%d" % (1 if rec["split"] is None else 2),
                              "linearised" if not rec["lin"] else "linear_flag",
@@ -365,10 +376,10 @@ def check_re_wiener(rec):
     if rec["cov"] and not default_kw:
         def draw(k):
             s, _ = call(n_samples=k)
-            return _re_flat_batch(s._samples, 2 * k)[0::2]
-        Smat, K, r0 = tape_re.sampling_matrix(draw, per_call=[2])
-        require(not np.any(r0), "residual_for_zero_white_noise_not_zero", f"{r0}")
-        _cov_check(Smat, P, "sample_covariance", "wiener_filter_posterior samples")
+            return _re_flat_batch(s._samples, len(s))
+        C, K, mult, rmax0 = tape_re.exact_covariance(draw)
+        require(rmax0 == 0.0, "residual_for_zero_white_noise_not_zero", f"max |residual| = {rmax0}")
+        _cov_check(C, P, "sample_covariance", "wiener_filter_posterior samples")
         classes.append("cov_exact")
     return dict(nontrivial=P.interesting(), classes=classes)
 
@@ -420,7 +431,8 @@ def check_re_okl(rec):
     require(len(smp) == 2 * n, "sample_count", f"{len(smp)} samples for n_samples={n}")
     if n > 0:
         res = _re_flat_batch(smp._samples, 2 * n)
-        require(np.array_equal(res[1::2], -res[0::2]), "samples_not_mirrored", "")
+        require(_symmetric_set(res), "samples_not_mirrored",
+                f"the set of residuals is not symmetric under negation: {res}")
         full = _re_flat_batch(smp.samples, 2 * n)
         close(full.mean(axis=0), P.m, "sample_mean", tol=1.0, scale=tol + 1e-12 * (1 + float(np.max(np.abs(res)))),
               detail="mean of the final samples vs exact posterior mean")
@@ -430,10 +442,10 @@ def check_re_okl(rec):
     if rec["cov"]:
         def draw(k):
             s, _ = call(n_samples=k, n_total_iterations=1, sample_mode="linear_resample", jit=False)
-            return _re_flat_batch(s._samples, 2 * k)[0::2]
-        Smat, K, r0 = tape_re.sampling_matrix(draw, per_call=[2])
-        require(not np.any(r0), "residual_for_zero_white_noise_not_zero", f"{r0}")
-        _cov_check(Smat, P, "sample_covariance", "optimize_kl (MGVI) samples")
+            return _re_flat_batch(s._samples, len(s))
+        C, K, mult, rmax0 = tape_re.exact_covariance(draw)
+        require(rmax0 == 0.0, "residual_for_zero_white_noise_not_zero", f"max |residual| = {rmax0}")
+        _cov_check(C, P, "sample_covariance", "optimize_kl (MGVI) samples")
         classes.append("cov_exact")
     return dict(nontrivial=P.interesting(), classes=classes)
 
@@ -445,7 +457,7 @@ def re_okl_recipes(draw, variant):
     return {"p": p, "split": split, "noise": draw(st.sampled_from(["both", "cov"])),
             "nsamp": nsamp, "nit": draw(st.sampled_from([1, 1, 2])),
             "mode": draw(st.sampled_from(["linear_resample", "linear_sample"])),
-            "jit": draw(st.integers(0, 4)) == 0, "pos0": draw(S.vec(p["ns"], S.dyadic(-2, 2, 4))),
+            "jit": draw(st.integers(0, 5)) == 0, "pos0": draw(S.vec(p["ns"], S.dyadic(-2, 2, 4))),
             "seed": draw(st.integers(0, 2**31 - 1)), "cov": nsamp > 0 and draw(st.booleans())}
 
 
@@ -546,19 +558,18 @@ def check_cl_curvature(rec):
     C = Sm @ Sm.T
     close(C, P.A, "curvature_sample_covariance", tol=1e-11, scale=1.0 + P.lmax,
           detail=f"draw_sample(): S S^T vs curvature; got\n{C}\nexpected\n{P.A}")
-    if rec["sampling"]:
+    try:
         Sm, s0, K = tape_rng.sampling_matrix(lambda: nx.flat(curv.draw_sample(from_inverse=True)))
-        require(not np.any(s0), "sample_for_zero_white_noise_not_zero", f"{s0}")
-        _cov_check(Sm, P, "sample_covariance", "WienerFilterCurvature.draw_sample(from_inverse=True)")
-        classes.append("cov_exact")
+    except NotImplementedError:
+        # without a sampling controller the operator may refuse to sample from its inverse
+        require(not rec["sampling"], "inverse_sampling_refused_with_sampling_controller",
+                "draw_sample(from_inverse=True) raised NotImplementedError although iteration_controller_sampling "
+                "was given")
+        classes.append("inverse_sampling_refused")
     else:
-        try:
-            curv.draw_sample(from_inverse=True)
-        except NotImplementedError:
-            classes.append("inverse_sampling_refused")
-        else:
-            raise Violation("inverse_sample_without_sampling_controller",
-                            "draw_sample(from_inverse=True) returned although no sampling controller was given")
+        require(not np.any(s0), "sample_for_zero_white_noise_not_zero", f"{s0}")
+        _cov_check(Sm @ Sm.T, P, "sample_covariance", "WienerFilterCurvature.draw_sample(from_inverse=True)")
+        classes.append("cov_exact")
     return dict(nontrivial=P.interesting(), classes=classes)
 
 
@@ -671,6 +682,26 @@ def _mc_decide(res, P, kind, what):
     return len(dirs) + p
 
 
+def _unmirror(allres, N):
+    """mirrored pairs carry the same information: keep one member of every +- pair (any order of the samples)"""
+    allres = np.asarray(allres)
+    if allres.shape[0] == N:
+        return allres
+    require(allres.shape[0] == 2 * N, "sample_count", f"{allres.shape[0]} samples for n_samples={N}")
+    keep, used = [], np.zeros(2 * N, dtype=bool)
+    for i in range(2 * N):
+        if used[i]:
+            continue
+        dist = np.max(np.abs(allres + allres[i][None, :]), axis=1)
+        dist[used] = np.inf
+        dist[i] = np.inf
+        jm = int(np.argmin(dist))
+        require(dist[jm] <= 1e-9, "samples_not_mirrored", f"sample {i} has no mirrored partner")
+        used[i] = used[jm] = True
+        keep.append(i)
+    return allres[keep]
+
+
 def check_mc(rec):
     _quiet()
     P = Problem(rec["p"])
@@ -685,7 +716,7 @@ def check_mc(rec):
             lh, key=random.PRNGKey(rec["seed"]), n_samples=N, residual_map="smap",
             draw_linear_kwargs=dict(cg=jft.conjugate_gradient.static_cg,
                                     cg_kwargs=dict(tol=CG_TOL, miniter=1, maxiter=6 * max(P.ns, P.nd) + 20)))
-        res = _re_flat_batch(smp._samples, 2 * N)[0::2]
+        res = _unmirror(_re_flat_batch(smp._samples, len(smp)), N)
         close(_re_flat(smp.pos), P.m, "posterior_mean_signal_space", tol=1.0, scale=2 * CG_TOL * P.jnorm + P.floor)
         _mc_decide(res, P, "mc_re_wiener", "wiener_filter_posterior (smap, static_cg)")
     elif rec["api"] == "cl_curvature":
@@ -713,19 +744,7 @@ def check_mc(rec):
         mm = nx.flat(mean)
         allres = np.stack([nx.flat(s) - mm for s in sl.iterator()])
         require(allres.shape[0] == 2 * N, "sample_count", f"{allres.shape}")
-        # mirrored pairs carry the same information: keep one member of every +- pair
-        keep, used = [], np.zeros(2 * N, dtype=bool)
-        for i in range(2 * N):
-            if used[i]:
-                continue
-            dist = np.max(np.abs(allres + allres[i][None, :]), axis=1)
-            dist[used] = np.inf
-            dist[i] = np.inf
-            jm = int(np.argmin(dist))
-            require(dist[jm] <= 1e-9, "samples_not_mirrored", f"sample {i} has no mirrored partner")
-            used[i] = used[jm] = True
-            keep.append(i)
-        _mc_decide(allres[keep], P, "mc_cl_optimize_kl", "optimize_kl (MGVI) samples")
+        _mc_decide(_unmirror(allres, N), P, "mc_cl_optimize_kl", "optimize_kl (MGVI) samples")
     else:
         raise ValueError(rec["api"])
     return dict(nontrivial=True, classes=classes)
@@ -773,7 +792,7 @@ SUBS = [
              "parameters, cov_inv/std_inv/both, position, model_is_linear=False incl. affine offset, default "
              "draw_linear_kwargs) vs dense mean; mirrored samples; tape-exact sample covariance; " + _NT),
     Sub(name="re_optimize_kl", check=check_re_okl, jax=True, shards=4, budget_quick=100.0,
-        cases=lambda tier, seed: _jax_cases(re_okl_recipes, tier, seed, 16 if tier == "quick" else 200, "o"),
+        cases=lambda tier, seed: _jax_cases(re_okl_recipes, tier, seed, 14 if tier == "quick" else 200, "o"),
         rule="nifty.re.optimize_kl MAP / MGVI (1-2 iterations, linear_sample/linear_resample, jit on/off) vs dense "
              "mean; tape-exact covariance of the linear samples; " + _NT),
     Sub(name="cl_curvature", check=check_cl_curvature, strategy=lambda tier: cl_curv_recipes(tier),
